@@ -297,7 +297,7 @@ def cli_marks(ctx, count, model=None):
 
 
 def run(ctx):
-    ctx.check_proofs(["MPilot.Props.C11", "MPilot.Props.C13Cli"])
+    ctx.check_proofs(["MPilot.Props.C11", "MPilot.Props.C11Exact", "MPilot.Props.C13Cli"])
     model = common.Model()
     rng = ctx.rng
     # (a) node lines of renderings (real vs true lines vs model)
